@@ -7,6 +7,10 @@ import (
 )
 
 func (p *Pool) Stop() {
+	// Concurrent Stops are serialised: the second one finds the pool stopped.
+	p.stopM.Lock()
+	defer p.stopM.Unlock()
+
 	defer p.runM.Unlock()
 	if p.runM.TryLock() {
 		slog.Warn("worker pool already stopped")
